@@ -452,14 +452,16 @@ def c15(tier):
         {"pkg": "transformer", "harness": "VerifC15_OnePath", "workers": NCPU, "params": {"N": n1}},
         {"pkg": "transformer", "harness": "VerifC15_Manifest", "workers": NCPU, "params": {"K": W(tier, 2, 3)}},
         {"pkg": "transformer", "harness": "VerifC15_TwoPaths", "workers": NCPU, "params": {"N": W(tier, 3, 4)}},
+        T("transformer", "VerifC15_Decoded", {"N": W(tier, 12, 24)}, redirects={"net/url.QueryUnescape": "verifUnescapeStub"}),
     ]
     out = engine_a_check("C15", tier, jobs,
-                         {"VerifC15_OnePath": ["accepted", "rejected"], "VerifC15_Manifest": ["accepted", "rejected", "yaml-error"], "VerifC15_TwoPaths": W(tier, ["rejected"], ["accepted", "rejected"])},
+                         {"VerifC15_OnePath": ["accepted", "rejected"], "VerifC15_Manifest": ["accepted", "rejected", "yaml-error"], "VerifC15_TwoPaths": W(tier, ["rejected"], ["accepted", "rejected"]), "VerifC15_Decoded": ["accepted", "rejected"]},
                          ["yaml.v3 positions/scalar styles/anchors are outside (stub contract)",
                           "strings longer than the bound are outside the claim"],
                          "", bounds={"OnePath": "one entry, all byte strings of length 0..%d" % n1,
                                      "Manifest": "schema/contents of every node kind, <= %d entries from a menu of 10 good/offending paths + non-string nodes, symbolic positions" % W(tier, 2, 3),
-                                     "TwoPaths": "two entries, all byte strings of length 0..%d each" % W(tier, 3, 4)})
+                                     "TwoPaths": "two entries, all byte strings of length 0..%d each" % W(tier, 3, 4),
+                                     "Decoded": "post-decoding rules: all decoded byte strings of length 0..%d (url.QueryUnescape stubbed; natively the fully percent-encoded entry)" % W(tier, 12, 24)})
     out.finish()
 
 
